@@ -58,7 +58,7 @@ os.environ.setdefault("MW_IMPL_MAX_TIMEOUTS", "1000")
 
 PALETTE = [
     "0", "-1", "1", "2", "255", "2147483647", "-2147483648", "2147483648", "9223372036854775807",
-    "-9223372036854775808", "9223372036854775808", "123456789012345678901234567890", "1000000",
+    "-9223372036854775808", "9223372036854775808", "123456789012345678901234567890", "100000",
     "1/2", "-7/3", "(/ -2147483648 3)", "(/ 3 2147483647)", "1.5", "-0.0", "(/ 1. 0)", "(- (/ 1. 0))", "(/ 0. 0)", "1e308",
     "#\\a", "#\\λ", "#\\x0", "#\\x10ffff",
     "\"\"", "\"a\"", "\"abc\"", "\"λx😀\"",
